@@ -17,6 +17,10 @@ def cases(draw):
     opts = {'repeat': draw(st.sampled_from([1, 1, 1, 2, 3])),
             'shuffle': draw(st.one_of(st.none(), st.integers(0, 10 ** 6))),
             'verbose': draw(st.integers(0, 2))}
+    # post-mortem mode runs tests through a different loop (startTest / test.debug() / stopTest); pdb gets 'c' on stdin
+    if draw(st.sampled_from([False] * 5 + [True])):
+        opts['post_mortem'] = True
+        opts['repeat'] = 1
     return {'spec': spec, 'opts': opts}
 
 
@@ -31,6 +35,8 @@ def args_of(opts):
         args.append('--buffer')
     if opts.get('stop'):
         args.append('-x')
+    if opts.get('post_mortem'):
+        args.append('-D')
     return args
 
 
@@ -43,12 +49,17 @@ class InProc(Part):
 
     def execute(self, case):
         spec = common.with_prefix(case['spec'])
-        run = drive.run_inproc(spec, args_of(case['opts']))
+        pm = bool(case['opts'].get('post_mortem'))
+        import io
+        run = drive.run_inproc(spec, args_of(case['opts']), stdin=io.StringIO('c\n' * 200) if pm else None)
         w = traceana.World(spec)
         viol = []
         skl = common.skipped_layers(spec)
         for pid, evs in traceana.by_pid(run.trace).items():
-            viol += traceana.check_per_test_hooks(w, evs, skl)
+            if pm:
+                viol += traceana.check_per_test_hooks_debug(w, evs)
+            else:
+                viol += traceana.check_per_test_hooks(w, evs, skl)
         # an aborted run is C04's business, but it truncates the history: label it
         labels = []
         if run.exc is not None:
@@ -66,6 +77,10 @@ class InProc(Part):
             labels.append('>=2-hooked-layers-in-closure')
         if case['opts'].get('repeat', 1) > 1:
             labels.append('repeat')
+        if pm:
+            labels.append('post-mortem')
+            if any(e['ev'] == 'T' and e['ph'] == 'ran' for e in run.trace):
+                labels.append('post-mortem:test-ran')
         return Outcome(viol, labels, hooked >= 2 and nonpass)
 
 
